@@ -9,7 +9,7 @@ RULE = ('Hypothesis-generated scripts on a real Environment + ResourceManager ov
         'behaviour is what the waiter\'s callback does when invoked: nothing / reserve what was asked / reserve '
         'something else / release an earlier reservation / add capacity / register another waiter (recursively). Two '
         'profiles: consume-or-register-only behaviours (exact (time, waiter) log compared with a reference '
-        'waiting-list model) and all behaviours (model-independent invariants only). Invariants always on: each '
+        'waiting-list model) and all behaviours (model-independent invariants only); a third phase drives two pools over capacity (reservations over both pools in both key orders, capacity cut to or below usage) before waiters register and the reservations are released. Invariants always on: each '
         'callback at most once (enforced inside the callback), arguments (manager, equal copy of the request), the '
         'request fits at invocation, no earlier-registered still-waiting request fits at that moment (while only '
         'consuming callbacks have run), after every advance no registered request fits. Non-trivial = at least two '
@@ -23,9 +23,12 @@ ASSUMPTIONS = ['feasibility is read through the public getters get_resource_usag
 def phases(tier):
     if tier == 'quick':
         return [Search('consume-only-exact-log', lambda: e2gen.waiter_cases(25, True), 1500, shards=2, tag='consume'),
-                Search('all-behaviours-invariants', lambda: e2gen.waiter_cases(25, False), 1500, shards=2, tag='all')]
+                Search('all-behaviours-invariants', lambda: e2gen.waiter_cases(25, False), 1500, shards=2, tag='all'),
+                Search('over-committed-pools', lambda: e2gen.overcommit_waiter_cases(True), 1000, shards=2, tag='consume')]
     return [Search('consume-only-exact-log', lambda: e2gen.waiter_cases(40, True), 5000, shards=8, tag='consume'),
-            Search('all-behaviours-invariants', lambda: e2gen.waiter_cases(40, False), 5000, shards=8, tag='all')]
+            Search('all-behaviours-invariants', lambda: e2gen.waiter_cases(40, False), 5000, shards=8, tag='all'),
+            Search('over-committed-pools', lambda: e2gen.overcommit_waiter_cases(True), 4000, shards=8, tag='consume'),
+            Search('over-committed-pools-all', lambda: e2gen.overcommit_waiter_cases(False), 4000, shards=8, tag='all')]
 
 
 def run_case(case, ctx):
